@@ -580,7 +580,20 @@ func (v SolutionVehicle) Unplan() (bool, error) {
 		if solutionStop.IsFixed() {
 			return false
 		}
-		return !v.solution.unwrapRootPlanUnit(solutionStop.planStopsUnit()).IsFixed()
+		rootPlanUnit := v.solution.unwrapRootPlanUnit(solutionStop.planStopsUnit())
+		if rootPlanUnit.IsFixed() {
+			return false
+		}
+		// a plan unit is un-planned as a whole or not at all: a unit that has
+		// stops on another vehicle as well stays where it is
+		for _, planStopsUnit := range rootPlanUnit.PlannedPlanStopsUnits() {
+			for _, stop := range planStopsUnit.SolutionStops() {
+				if stop.IsPlanned() && stop.vehicle().index != v.index {
+					return false
+				}
+			}
+		}
+		return true
 	})
 	if len(solutionStops) == 0 {
 		return false, nil
